@@ -21,7 +21,8 @@ import "container/heap"
 // less; the minimal element is at the top of the queue.
 //
 // If setIndex is not nil, the queue calls setIndex to inform each element of
-// its position in the queue.  If an element's priority changes, its position in
+// its position in the queue, and with -1 when the element leaves the queue
+// (Pop, Remove).  If an element's priority changes, its position in
 // the queue may be incorrect.  Call Fix on the element's index to update the
 // queue.  Call Remove on the element's index to remove it from the queue.
 func NewQueue(less func(x, y interface{}) bool, setIndex func(x interface{}, idx int)) *Queue {
@@ -107,5 +108,10 @@ func (h *pqHeap) Pop() interface{} {
 	n := len(old)
 	x := old[n-1]
 	h.a = old[:n-1]
+	if h.setIndex != nil {
+		// x has left the queue: the index of the cell it was swapped into
+		// belongs to whatever is pushed next.
+		h.setIndex(x, -1)
+	}
 	return x
 }
